@@ -72,15 +72,21 @@ def statement_range(src, selector, body_lo, body_hi, rx):
                 raise X.ExtractError(f"{selector}: block has fewer than {nst} statements (lost anchor)")
             pos = e
         return bstart, pos
-    # end regex: the block runs through the first statement (at this nesting depth) that matches it
+    # end regex: the block runs through the first statement (at this nesting depth) that matches it; with a
+    # leading `<` the block ends just BEFORE that statement (exclusive end)
+    excl = rx[1].startswith("<")
+    erx = rx[1][1:] if excl else rx[1]
+    first = True
     for _ in range(400):
+        prev_end = pos
         while pos < body_hi and src.masked[pos] in " \t\n":
             pos += 1
         e = statement_end(src.masked, pos)
         if e <= pos or pos >= body_hi:
             break
-        if re.search(rx[1], src.masked[pos:e]) or re.search(rx[1], src.text[pos:e]):
-            return bstart, e
+        if (not (excl and first)) and (re.search(erx, src.masked[pos:e]) or re.search(erx, src.text[pos:e])):
+            return (bstart, prev_end) if excl else (bstart, e)
+        first = False
         pos = e
     raise X.ExtractError(f"{selector}: block end /{rx[1]}/ not found after /{rx[0]}/ (lost anchor)")
 
